@@ -3,7 +3,7 @@ import json
 import os
 import re
 import vlib
-from vlib import coq_n, coq_bool, coq_list
+from vlib import coq_n, coq_bool, coq_list, coq_z
 
 PID = "C03"
 
@@ -98,7 +98,52 @@ def selflogdir_signature(inst, j, f):
     return new_hit and old_hit and bool(onames)
 
 
+def cells_coq(seg):
+    return coq_list(["None" if v < 0 else "(Some %s)" % coq_z(v) for v in seg])
+
+
+def chunk_coq(ch, fid):
+    t = coq_list([coq_list([coq_z(x) for x in seg]) for seg in ch["t"]])
+    cols = coq_list(["(%s, %s)" % (coq_n(fid[f]), coq_list([cells_coq(seg) for seg in segs])) for f, segs in sorted(ch["c"].items())])
+    return "mkchunk %s %s" % (t, cols)
+
+
+def colcase_coq(ci, ser):
+    fid = {f: i for i, f in enumerate(ser["fields"])}
+    return "mkcc %d%%nat %s %s %s" % (ci["maxrows"], coq_list([coq_n(i) for i in range(len(ser["fields"]))]),
+                                      coq_list([chunk_coq(c, fid) for c in ser["in"]]),
+                                      coq_list([chunk_coq(c, fid) for c in ser["out"] or []]))
+
+
+COLCODES = {50: "an input chunk is not well-formed (inner segment shorter/longer than max-rows-per-segment, or a column segment of another length than its time segment)",
+            51: "the series was not written into exactly one output chunk",
+            52: "time segments written by the compaction differ from the model (ColModel.compact_col)",
+            53: "a column's segments written by the compaction differ from the model (cells lost / shifted / padded differently)",
+            54: "the output chunk has a column that no input chunk has", 55: "the output chunk is not well-formed"}
+
+
+def stream_split_signature(ci):
+    """streaming compaction (level / full) of a group in which the chunks of one series have, together, more segments than
+    max-segment-limit, so that the series must be split over several output files"""
+    return ci.get("seglimit", 0) > 0 and ci.get("op") in ("level0", "full") and ci.get("maxsegs", 0) > ci["seglimit"] \
+        and ci.get("mode") == "stream"
+
+
+def load_fragment_findings(ck):
+    """ck.findings comes from the merged known_findings.json; entries of this property's own fragment that the orchestrator
+    has not merged yet are added (read-only, by id) so that the check is self-contained"""
+    frag = os.path.join(ck.verif, "props", PID, "findings.json")
+    try:
+        have = {f["id"] for f in ck.findings}
+        for f in json.load(open(frag))["findings"]:
+            if f.get("property") == PID and f["id"] not in have:
+                ck.findings.append(f)
+    except (OSError, ValueError, KeyError):
+        pass
+
+
 def main(ck):
+    load_fragment_findings(ck)
     ck.assumptions += [
         "process-kill crash semantics: every completed write/rename/remove is visible after the crash, nothing else is lost "
         "(no power loss; the OS honours rename atomicity); the torn last write of the intent log is any byte prefix",
@@ -114,22 +159,32 @@ def main(ck):
                               "Go harness cmd/c03 + internal/crashfs (recording VFS, image copy), python driver props/C03/run.py",
                               "hook lib/fileops/verif_export_c03.go (VerifSwapLocalFS)"]
     ck.coq_audit(["C03"])
-    ok = ck.coq_build(["C03/Proofs.vo", "C03/Corr.vo"])
+    ok = ck.coq_build(["C03/Proofs.vo", "C03/Corr.vo", "C03/ColProofs.vo", "C03/ColCorr.vo"])
     if ok:
         ck.coq_props(["C03/Props.v"])
     binp = ck.go_build("./cmd/c03", "c03")
     if not binp:
         return
     n = 24 if ck.tier == "quick" else 400
+    ncol, nseg = (60, 16) if ck.tier == "quick" else (1500, 300)
     if ck.replay:
         rp = json.load(open(ck.replay))
         rc, out = ck.run([binp, str(int(rp.get("case", 0)) + 1)], timeout=3000, env={"VERIF_SEED": str(rp.get("seed", ck.seed)),
                                                                                  "VERIF_TIER": rp.get("tier", ck.tier)})
         insts = [json.loads(l) for l in out.splitlines() if l.startswith('{"case"')]
         insts = [i for i in insts if i["case"] == rp.get("case")]
+        cols = []
+        if rp.get("colcase") is not None:
+            cc = int(rp["colcase"])
+            a = [binp, "0", str(cc + 1), "0"] if cc < 100000 else [binp, "0", "0", str(cc - 100000 + 1)]
+            rc, out = ck.run(a, timeout=3000, env={"VERIF_SEED": str(rp.get("seed", ck.seed)), "VERIF_TIER": rp.get("tier", ck.tier)})
+            cols = [json.loads(l) for l in out.splitlines() if l.startswith('{"colcase"')]
+            cols = [c for c in cols if c["colcase"] == cc]
+            insts = insts or [{"case": -1, "op": "none", "images": [], "steps": [], "hist": ""}]
     else:
-        rc, out = ck.run([binp, str(n)], timeout=3000)
+        rc, out = ck.run([binp, str(n), str(ncol), str(nseg)], timeout=3000)
         insts = [json.loads(l) for l in out.splitlines() if l.startswith('{"case"')]
+        cols = [json.loads(l) for l in out.splitlines() if l.startswith('{"colcase"')]
     crashed = rc != 0 or "c03 done" not in out
     if crashed:
         # the real code panicked / the harness died: still apply the direct oracle to what was observed before
@@ -160,6 +215,32 @@ def main(ck):
         ck.violation({"kind": "direct-oracle", "what": f, "case": inst["case"], "op": inst["op"], "history": inst["hist"],
                       "crash": None if im is None else {"steps_applied": im["k"], "torn_log_bytes": im["torn"], "recovery_mutations_before_second_crash": im["sub"]},
                       "steps": inst.get("steps"), "names": inst.get("names"), "old": inst.get("old"), "new": inst.get("new")})
+    # ---- column-level cases: direct oracle ----
+    col_known = 0
+    col_died_known = 0
+    col_viol = 0
+    for ci in cols:
+        sig = stream_split_signature(ci)
+        for f in ci.get("fail") or []:
+            if sig and ck.match_finding("C03-stream-split"):
+                ck.known_finding("C03-stream-split", "streaming compaction of a series with more segments than max-segment-limit "
+                                                     "loses / corrupts rows of the series (the chunk must be split over several files)")
+                col_known += 1
+            elif col_viol < 3:
+                col_viol += 1
+                ck.violation({"kind": "direct-oracle", "what": f, "colcase": ci["colcase"], "op": ci["op"], "mode": ci["mode"],
+                              "max_rows_per_segment": ci["maxrows"], "max_segment_limit": ci["seglimit"], "history": ci["hist"],
+                              "process_died": ci.get("died"), "panic": ci.get("panic"),
+                              "explanation": "history: O<seq>/U<seq>(s<series>:<rows>:<fields present in the chunk>) = ordered / out-of-order file, then the operations"})
+            break
+        if ci.get("died") and not ci.get("fail"):
+            if sig:
+                col_died_known += 1      # observation (see NOTES): the process dies, the files are untouched after restart
+            else:
+                ck.broken.append("compaction / merge died (%s) in column case %d op %s [%s]; the model (ColModel.compact_col) "
+                                 "says it completes" % (ci.get("panic"), ci["colcase"], ci["op"], ci["hist"]))
+        elif ci.get("abandoned") and not ci.get("fail") and not sig:
+            ck.broken.append("compaction / merge gave up without replacing files in column case %d op %s [%s]" % (ci["colcase"], ci["op"], ci["hist"]))
     if crashed:
         ck.cov["evaluations"] = nimg
         return
@@ -183,6 +264,38 @@ def main(ck):
             continue
         for a, b, c in re.findall(r"\((\d+),\s*(\d+),\s*(\d+)\)", m.group(1)):
             mism.append((mod[idx * shard + int(a)], int(b), int(c)))
+    # ---- column-level model evaluation (compactions outside the segment-limit cases) ----
+    colmod = []
+    for ci in cols:
+        if ci.get("seglimit") or ci.get("died") or ci.get("fail") or ci["op"] == "merge":
+            continue
+        for ser in ci.get("series") or []:
+            if ser.get("in"):
+                colmod.append((ci, ser))
+    cshard = 40
+    cfiles = []
+    for i in range(0, len(colmod), cshard):
+        chunk = colmod[i:i + cshard]
+        txt = ("From Coq Require Import NArith ZArith List Bool. From OG Require Import C03.ColModel C03.ColCorr.\n"
+               "Import ListNotations. Open Scope N_scope.\n"
+               "Definition cases : list colcase := [\n%s\n].\n"
+               "Definition M := Eval vm_compute in col_mismatches cases.\nPrint M.\n") % ";\n".join(colcase_coq(a, b) for a, b in chunk)
+        cfiles.append(("c03col%d" % (i // cshard), txt))
+    cres = ck.coq_eval_many(cfiles) if ok and cfiles else []
+    colmism = []
+    for idx, (rc2, o) in enumerate(cres):
+        m = re.search(r"M\s*=\s*(.*?)\s*:\s*list", o, re.S)
+        if rc2 != 0 or not m:
+            ck.broken.append("column model evaluation failed on shard %d: %s" % (idx, o[-400:]))
+            continue
+        for a, b in re.findall(r"\((\d+),\s*(\d+)\)", m.group(1)):
+            colmism.append((colmod[idx * cshard + int(a)], int(b)))
+    if colmism and not oracle and not col_viol:
+        (ci, ser), code = colmism[0]
+        ck.broken.append("correspondence C03 column model/implementation differs: column case %d op %s series %d: %s" % (
+            ci["colcase"], ci["op"], ser["sid"], COLCODES.get(code, str(code))))
+        ck.nofail_detail = {"kind": "column-correspondence", "code": code, "meaning": COLCODES.get(code, ""), "colcase": ci["colcase"],
+                            "op": ci["op"], "mode": ci["mode"], "history": ci["hist"], "series": ser}
     # ---- coverage ----
     nontriv = set()
     hist = {}
@@ -195,13 +308,29 @@ def main(ck):
             key = "write-phase" if im["k"] < 0 else ("torn-log" if im["torn"] >= 0 else "protocol-step")
             key += "+recovery-crash" if im["sub"] >= 0 else ""
             crashk[key] = crashk.get(key, 0) + 1
-    ck.cov["evaluations"] = nimg
-    ck.cov["distinct_nontrivial"] = len(nontriv)
+    colhist = {}
+    col_nontriv = set()
+    for ci in cols:
+        k = "%s/%s%s" % (ci["op"], ci["mode"], "/seglimit" if ci.get("seglimit") else "")
+        colhist[k] = colhist.get(k, 0) + 1
+    for ci, ser in colmod:
+        multi = any(len(c["t"]) > 1 and any(f not in c["c"] for f in ser["fields"]) for c in ser["in"])
+        if multi:
+            col_nontriv.add(json.dumps(ser, sort_keys=True))
+    ck.cov["evaluations"] = nimg + len(cols)
+    ck.cov["distinct_nontrivial"] = len(nontriv) + len(col_nontriv)
+    ck.cov["column_cases"] = {"operations": len(cols), "histogram": colhist, "series_compared_with_column_model": len(colmod),
+                              "series_with_a_multi_segment_chunk_lacking_a_column": len(col_nontriv),
+                              "model_mismatches": len(colmism), "known_finding_failures": col_known,
+                              "process_deaths_inside_known_finding_signature": col_died_known}
     ck.cov["traces_validated_against_impl"] = (sum(len(i["images"]) for i in mod) - len([m for m in mism if m[2] >= 20])) if ok else 0
     ck.cov["rule"] = ("evaluation = one crash image (copy of the shard directory taken between two file-system mutations of a real "
                       "compaction / merge, or with a torn intent-log write, or during the recovery pass of such an image) re-opened "
                       "with the real loader; non-trivial protocol instance = replaces >= 2 old files and has >= 6 protocol steps; "
-                      "distinct = different (operation, file names, old/new/out-of-order sets, start listing)")
+                      "distinct = different (operation, file names, old/new/out-of-order sets, start listing); column cases: evaluation = "
+                      "one compaction / merge of generated files (boundary row counts, absent columns) judged by the dump oracle live and "
+                      "after reopen; non-trivial = a series whose inputs hold a multi-segment chunk lacking a column, layout compared with "
+                      "the Coq column model")
     ck.cov["protocol_instances"] = len(insts)
     ck.cov["instances_compared_with_model"] = len(mod)
     ck.cov["instances_oracle_only_concurrent"] = len(insts) - len(mod)
